@@ -30,6 +30,11 @@ func c02Random(seed uint64, i int, ntexts int) *c01Case {
 		n := 0
 		p.Commands[0].Body = gen.NameLoops(rng, p.Commands[0].Body, &n)
 	}
+	if rng.Chance(1, 4) {
+		// the same bindings under an amount clause: a skipped or trimmed match is built like any other (its
+		// back-references read its own bindings), only not reported
+		p.Commands[0].Amount = gen.RandomAmount(rng)
+	}
 	src := gen.RenderProgram(p)
 	sm := gen.NewSampler(rng, p, TextAlphaFor(sc.Alpha))
 	maxLen := maxLenFor(p, 14)
@@ -140,6 +145,13 @@ func checkVarsCase(r *drv.Run, cs *c01Case, res *wire.Result, label string) {
 		}
 		okAny := false
 		why := ""
+		am := cs.prog.Commands[0].Amount
+		for ai := range alts {
+			alts[ai] = windowRef(alts[ai], am)
+		}
+		if am.Kind != "" && am.Kind != "all" && len(alts[0]) > 0 {
+			r.Count("amount_clause_runs_with_matches", 1)
+		}
 		for _, a := range alts {
 			ok, w := spansVarsEqual(run.Matches, a)
 			if ok {
@@ -222,7 +234,7 @@ func C02(r *drv.Run) {
 	if !quick(r) {
 		nprog, ntext = 100000, 16
 	}
-	r.Rule = "capture-heavy generator: `= name` bindings inside first alternatives that then fail, inside maybe/at most/at least 0 iterations that get abandoned, inside recursive subroutines, followed by back-references; inputs are near misses derived from the program; plus an exhaustive family of 11 capture shapes (4 of them inside named loops, directly / under an inner unnamed loop / under an inner named loop) x 4^3 literal choices x all texts over {a,b} up to length 4. Oracle: reference backtracker with a persistent environment gives the exact expected variable map of every match (spans AND flat variables must equal). Non-trivial = expected match carries >= 1 binding AND the VM backtracked; distinct by (program, text)."
+	r.Rule = "capture-heavy generator: `= name` bindings inside first alternatives that then fail, inside maybe/at most/at least 0 iterations that get abandoned, inside recursive subroutines, followed by back-references; inputs are near misses derived from the program; a quarter of the programs under a random amount clause (skip / take / top / last: expected = that window of the reference's list); plus an exhaustive family of 11 capture shapes (4 of them inside named loops, directly / under an inner unnamed loop / under an inner named loop) x 4^3 literal choices x all texts over {a,b} up to length 4. Oracle: reference backtracker with a persistent environment gives the exact expected variable map of every match (spans AND flat variables must equal). Non-trivial = expected match carries >= 1 binding AND the VM backtracked; distinct by (program, text)."
 	r.Assumptions = []string{
 		"named-loop variable maps are compared after dropping iteration entries that hold nothing (vore opens the map of an iteration before it knows whether the iteration will run)",
 		"reference matcher semantics as in C01 (word-anchor boundary cases are don't-care)",
@@ -261,4 +273,29 @@ func C02(r *drv.Run) {
 			r.Inconclusive("no back-reference was executed")
 		}
 	}
+}
+
+// windowRef: the slice of the reference's match list an amount clause selects.
+func windowRef(a []ref.Span, am gen.Amount) []ref.Span {
+	n := len(a)
+	clamp := func(x int) int {
+		if x < 0 {
+			return 0
+		}
+		if x > n {
+			return n
+		}
+		return x
+	}
+	switch am.Kind {
+	case "top", "take":
+		return a[:clamp(am.Take)]
+	case "skip":
+		return a[clamp(am.Skip):]
+	case "skiptake":
+		return a[clamp(am.Skip):clamp(am.Skip+am.Take)]
+	case "last":
+		return a[clamp(n-am.Last):]
+	}
+	return a
 }
